@@ -749,6 +749,54 @@ func leanStr(s string) string {
 	return b.String()
 }
 
+// emitLean writes the regenerated Lean table
+func emitLean(w io.Writer, sites []Site, problems []string) {
+	line := func(format string, a ...interface{}) {
+		fmt.Fprintf(w, format, a...)
+		fmt.Fprintln(w)
+	}
+	line("/-")
+	line("  REGENERATED by harness/cmd/c07 (tools/props/c07.py) on every run of the C07 check: do not edit.")
+	line("  One row per `range` over a map-typed expression (and over the order-tainted slices")
+	line("  procbuilder.Allopcodes / BasmInstance.matchers: kind ordered), per use of the clock / math/rand /")
+	line("  crypto/rand / temp-pid-host sources and per `go` statement in the packages that make up")
+	line("  basm, bondgo, neuralbond, bmqsim and bondmachine. Identity of a row = kind, file, enclosing")
+	line("  function, expression, ordinal (line numbers are comments only).")
+	line("-/")
+	line("import BMV.Sched")
+	line("namespace BMV.Gen.MapRanges")
+	line("open BMV.Sched")
+	line("")
+	line("/-- extractor problems (parse / type errors); the obligation `problems = []` is part of C07 -/")
+	line("def problems : List String := [")
+	for i, p := range problems {
+		sep := ","
+		if i == len(problems)-1 {
+			sep = ""
+		}
+		line("  %s%s", leanStr(p), sep)
+	}
+	line("]")
+	line("")
+	line("def sites : List Site := [")
+	for i, s := range sites {
+		sep := ","
+		if i == len(sites)-1 {
+			sep = ""
+		}
+		fl := []string{}
+		if s.Class != "" {
+			for _, f := range strings.Split(s.Class, "+") {
+				fl = append(fl, leanStr(f))
+			}
+		}
+		line("  ⟨0x%016x, %s, [%s]⟩%s  -- line %d", s.Key(), leanStr(s.ID()), strings.Join(fl, ", "), sep, s.Line)
+	}
+	line("]")
+	line("")
+	line("end BMV.Gen.MapRanges")
+}
+
 func main() {
 	_ = common.Seed // no randomness is used by the extractor
 	if len(os.Args) < 3 {
@@ -761,7 +809,27 @@ func main() {
 	sites, problems := extract(repo)
 	out := common.NewOut(os.Stdout)
 	defer out.Flush()
-	switch os.Args[1] {
+	mode := os.Args[1]
+	if mode == "both" {
+		// c07 both <repo> <file.lean>: Lean table into the file (replaced only when it changed), JSON on stdout
+		if len(os.Args) < 4 {
+			die("usage: c07 both <repo> <file.lean>")
+		}
+		var buf bytes.Buffer
+		emitLean(&buf, sites, problems)
+		old, _ := os.ReadFile(os.Args[3])
+		if !bytes.Equal(old, buf.Bytes()) {
+			tmp := os.Args[3] + ".tmp"
+			if err := os.WriteFile(tmp, buf.Bytes(), 0644); err != nil {
+				die("%v", err)
+			}
+			if err := os.Rename(tmp, os.Args[3]); err != nil {
+				die("%v", err)
+			}
+		}
+		mode = "json"
+	}
+	switch mode {
 	case "json":
 		type js struct {
 			Site
@@ -775,46 +843,9 @@ func main() {
 		b, _ := json.MarshalIndent(map[string]interface{}{"sites": l, "problems": problems}, "", " ")
 		out.Line("%s", string(b))
 	case "extract":
-		out.Line("/-")
-		out.Line("  REGENERATED by harness/cmd/c07 (tools/props/c07.py) on every run of the C07 check: do not edit.")
-		out.Line("  One row per `range` over a map-typed expression (and over the order-tainted slices")
-		out.Line("  procbuilder.Allopcodes / BasmInstance.matchers: kind ordered), per use of the clock / math/rand /")
-		out.Line("  crypto/rand / temp-pid-host sources and per `go` statement in the packages that make up")
-		out.Line("  basm, bondgo, neuralbond, bmqsim and bondmachine. Identity of a row = kind, file, enclosing")
-		out.Line("  function, expression, ordinal (line numbers are comments only).")
-		out.Line("-/")
-		out.Line("import BMV.Sched")
-		out.Line("namespace BMV.Gen.MapRanges")
-		out.Line("open BMV.Sched")
-		out.Line("")
-		out.Line("/-- extractor problems (parse / type errors); the obligation `problems = []` is part of C07 -/")
-		out.Line("def problems : List String := [")
-		for i, p := range problems {
-			sep := ","
-			if i == len(problems)-1 {
-				sep = ""
-			}
-			out.Line("  %s%s", leanStr(p), sep)
-		}
-		out.Line("]")
-		out.Line("")
-		out.Line("def sites : List Site := [")
-		for i, s := range sites {
-			sep := ","
-			if i == len(sites)-1 {
-				sep = ""
-			}
-			fl := []string{}
-			if s.Class != "" {
-				for _, f := range strings.Split(s.Class, "+") {
-					fl = append(fl, leanStr(f))
-				}
-			}
-			out.Line("  ⟨0x%016x, %s, [%s]⟩%s  -- line %d", s.Key(), leanStr(s.ID()), strings.Join(fl, ", "), sep, s.Line)
-		}
-		out.Line("]")
-		out.Line("")
-		out.Line("end BMV.Gen.MapRanges")
+		var buf bytes.Buffer
+		emitLean(&buf, sites, problems)
+		out.Line("%s", strings.TrimSuffix(buf.String(), "\n"))
 	default:
 		die("unknown mode %s", os.Args[1])
 	}
